@@ -35,6 +35,9 @@ theorem applyOp_txs {st st' : Store} (o : StoreOp) (h : applyOp st o = .ok st') 
   | lock keys =>
     simp only [applyOp] at h; cases h
     simp [commitsOf, recsFrom, lockBalances, Store.txRecs]
+  | saveAccountMeta a at_ md =>
+    simp only [applyOp] at h; cases h
+    simp [commitsOf, recsFrom, Store.txRecs]
   | markReverted id a =>
     simp only [applyOp] at h; cases h
     simp only [commitsOf, recsFrom, List.append_nil, List.length_nil, Nat.add_zero]
@@ -92,6 +95,9 @@ theorem applyOp_prefix {st st' : Store} (o : StoreOp) (h : applyOp st o = .ok st
     · simp
     · rw [hm]; exact List.prefix_append _ _
   | lock keys =>
+    simp only [applyOp] at h; cases h
+    exact ⟨List.prefix_refl _, List.prefix_refl _⟩
+  | saveAccountMeta a at_ md =>
     simp only [applyOp] at h; cases h
     exact ⟨List.prefix_refl _, List.prefix_refl _⟩
   | markReverted id a =>
